@@ -37,3 +37,18 @@ def tier2(tier, rng):
         parts = list(L.region_partitions(h, w, max_size=6))
         for blocks in L.sample(rng, parts, 40 if th else 6):
             yield {"h": h, "w": w, "blocks": blocks}
+
+
+def big(tier, rng):
+    """5x5 / 4x6 / 6x4 boards with 3-4 rooms (too many candidate grids to enumerate: every grid the solver admits,
+    up to the cap, is checked against the rules)"""
+    th = tier == "thorough"
+    for (h, w) in [(5, 5), (4, 6), (6, 4)]:
+        k = 0
+        for _ in range(400):
+            blocks = L.random_rooms(rng, h, w, rng.choice([3, 4]))
+            if all(len(b) >= 1 for b in blocks):
+                yield {"h": h, "w": w, "blocks": blocks}
+                k += 1
+                if k >= (16 if th else 4):
+                    break
